@@ -93,6 +93,10 @@ def run(ck, F):
     _c15.one_string_rule(ck, F, 'C04')
     import history as _history
     _history.call_storage_rule(ck, F, 'C04')
+    # transfer values compare equal exactly when spelled the same: the constructors of transfers tell requests apart by both
+    # components on every path (a shortcut that looks at the linkage only gives one value to several spellings)
+    import borrow as _borrow
+    _borrow.borrow(ck, F, 'C01', 'C04', {'KEY-guard'}, only=lambda inst: 'get_transfer' in inst)
     # names recognise a reserved spelling by the identity of the String it is interned as: a reserved spelling must come out of the
     # pool as the reserved-word node, whatever it looks like (the table also holds `C`, `C++`, `...` and `=0`)
     import words as _words2
